@@ -11,7 +11,7 @@ EXTENDS Integers, Sequences, TLC, Json
 
 CONSTANT SnapshotBeforeRun
 
-Modes == {"workspace", "workspace_ppl", "single"}     \* workspace_ppl: the selected script has the .ppl extension
+Modes == {"workspace", "workspace_ppl", "workspace_lone", "single"}     \* workspace_lone: the workspace holds this one script only     \* workspace_ppl: the selected script has the .ppl extension
 \* line-protocol files: the input is the FIRST POINT of the file, not its first line: comment lines and blank lines before
 \* it are skipped, a quoted string field may contain a line break, later points are ignored
 \* text files: the WHOLE content becomes field `message` (several lines, surrounding blanks and a final line break included)
@@ -20,7 +20,7 @@ Outputs == {"json", "lineprotocol"}
 \* crlfField: the script file has CR LF line ends, also inside a multi-line string literal whose value it stores: the script
 \* that runs is the file's bytes, nothing is normalised on the way
 \* nilField: the script leaves a field whose value is nil: it is part of the point and is printed (JSON null)
-Kinds == {"noop", "addField", "crlfField", "nilField", "toTag", "setMeas", "clearMeas", "setTime", "dropMsg", "useSibling", "loadErr", "runErr", "linkErr"}
+Kinds == {"noop", "addField", "crlfField", "nilField", "toTag", "setMeas", "clearMeas", "setTime", "dropMsg", "useSibling", "loadErr", "runErr", "linkErr", "selfUse"}
 
 VARIABLES cfg, phase, pt, snap, out, err
 vars == <<cfg, phase, pt, snap, out, err>>
@@ -38,14 +38,16 @@ Effect(k, p) == CASE k \in {"addField", "crlfField", "nilField"} -> [p EXCEPT !.
                   [] OTHER -> p
 
 Init == /\ cfg \in [mode : Modes, input : Inputs, output : Outputs, kind : Kinds]
-        /\ (cfg.kind \in {"useSibling", "linkErr"} => cfg.mode \in {"workspace", "workspace_ppl"})      \* a sibling needs a workspace
+        /\ (cfg.kind = "useSibling" => cfg.mode \in {"workspace", "workspace_ppl"})      \* a sibling needs a workspace
+        \* (a use() of a missing script, or of the script itself, is a load error in every mode - also when the script is the only one)
+        /\ (cfg.mode = "workspace_lone" => cfg.kind \in {"noop", "addField", "linkErr", "selfUse", "runErr"})
         /\ (cfg.kind = "nilField" => cfg.output = "json")                           \* line protocol has no spelling for nil
         /\ (cfg.kind = "clearMeas" => cfg.output = "json")                          \* line protocol cannot encode an empty name
         /\ (cfg.kind = "toTag" /\ cfg.input = "text_multiline" => cfg.output = "json")  \* ... nor a line break inside a tag value
         /\ phase = "start" /\ pt = None /\ snap = None /\ out = None /\ err = "none"
 
 Select == /\ phase = "start"
-          /\ IF cfg.kind \in {"loadErr", "linkErr"} THEN phase' = "done" /\ err' = "load"
+          /\ IF cfg.kind \in {"loadErr", "linkErr", "selfUse"} THEN phase' = "done" /\ err' = "load"
              ELSE IF cfg.input = "none" THEN phase' = "done" /\ err' = err       \* check only
              ELSE phase' = "loaded" /\ err' = err
           /\ UNCHANGED <<cfg, pt, snap, out>>
